@@ -79,6 +79,24 @@ P(WAITER_RESERVED) P(WAITER_IN_USE)
 P(FUTEX_WAIT) P(FUTEX_WAKE) P(FUTEX_WAIT_BITSET) P(FUTEX_CMD_MASK) P(FUTEX_CLOCK_REALTIME)
 '''
 
+def api_macro_probe(repo):
+    """probe lines for "is this API name a preprocessor macro after including nsync.h?": the rules analyse the bodies of the API functions, which
+    is what clients execute only as long as the public headers do not interpose a function-like macro of the same name (a macro can evaluate
+    its arguments twice, or short-cut the function with an unordered load).  The names are the lower-case nsync_* identifiers followed by '('
+    in public/*.h."""
+    import re, glob
+    names = set()
+    for h in sorted(glob.glob(os.path.join(repo, 'public', '*.h'))):
+        try:
+            txt = open(h, errors='replace').read()
+        except OSError:
+            continue
+        names.update(re.findall(r'\b(nsync_[a-z0-9_]+)\s*\(', txt))
+    out = ['']
+    for n in sorted(names):
+        out.append('#ifdef %s\nconst unsigned long long probe_macro_%s = 1;\n#else\nconst unsigned long long probe_macro_%s = 0;\n#endif' % (n, n, n))
+    return '\n'.join(out) + '\n'
+
 def _split_cmd(cmd):
     import shlex
     return shlex.split(cmd)
@@ -222,7 +240,7 @@ def _build(repo, outdir):
         # probe TU (constants as the preprocessor sees them, C configuration)
         probe = os.path.join(scratch, 'probe.c')
         with open(probe, 'w') as f:
-            f.write(PROBE_C)
+            f.write(PROBE_C + api_macro_probe(repo))
         jobs.append([CLANG, '-I' + os.path.join(repo, 'platform/gcc_new')] + _flags_from(ent_c[0]) +
                     ['-O0', '-emit-llvm', '-c', probe, '-o', os.path.join(scratch, 'probe.bc'), '-w'])
         with ThreadPoolExecutor(max_workers=16) as ex:
